@@ -71,16 +71,16 @@ Proof.
 Qed.
 
 (* ---- OSC, ST-terminated: the OSC is reported exactly once, and the terminator
-   ESC \ is additionally reported as an unhandled escape with final byte 92 ---- *)
+   ESC \ (dispatched by vte as a separate escape sequence) is silent since the K18 repair ---- *)
 Theorem C18_osc_st_once : forall p fs,
   ground (vt p) -> osc_ok fs ->
   process p (osc_bytes_st fs) =
-  Ok (mkParser p_init (scr p) (log p ++ osc_events fs ++ [EUnhEscape None None 92]) (resizing p)).
+  Ok (mkParser p_init (scr p) (log p ++ osc_events fs) (resizing p)).
 Proof.
   intros p fs Hg Hok. unfold process. rewrite (advance_osc_st (vt p) fs Hg Hok).
   cbn [perform_all perform bind]. rewrite do_osc_events. cbn [bind app].
-  change (do_esc (scr p) [] 92) with (Ok (scr p, [EUnhEscape None None 92])). cbn [bind].
-  reflexivity.
+  change (do_esc (scr p) [] 92) with (Ok (scr p, @nil event)). cbn [bind].
+  rewrite app_nil_r. reflexivity.
 Qed.
 
 (* ---- single characters ---- *)
@@ -196,16 +196,16 @@ Example ex_osc :
   log_of (process p0 (osc_bytes_bel [[53; 50]; [99]; [120]])) = [EUnhOsc [[53; 50]; [99]; [120]]] /\
   log_of (process p0 (osc_bytes_bel [[]])) = [EUnhOsc [[]]] /\
   (* OBSERVATION: with ESC \ the terminator is reported as an unhandled escape *)
-  log_of (process p0 (osc_bytes_st [[50]; [104; 105]])) = [ETitle [104; 105]; EUnhEscape None None 92] /\
+  log_of (process p0 (osc_bytes_st [[50]; [104; 105]])) = [ETitle [104; 105]] /\
   scr_same (process p0 (osc_bytes_st [[50]; [104; 105]])) p0.
 Proof. repeat split; vm_compute; reflexivity. Qed.
 
 (* OBSERVATION: the same happens with DCS / SOS / PM / APC strings terminated by ESC \ :
    the string itself reports nothing, the terminator is reported *)
 Example ex_strings_st :
-  log_of (process p0 [27; 80; 113; 35; 48; 27; 92]) = [EUnhEscape None None 92] /\   (* ESC P q # 0 ESC \ *)
-  log_of (process p0 [27; 88; 120; 27; 92]) = [EUnhEscape None None 92] /\            (* ESC X x ESC \ *)
-  log_of (process p0 [27; 95; 120; 27; 92]) = [EUnhEscape None None 92] /\            (* ESC _ x ESC \ *)
+  log_of (process p0 [27; 80; 113; 35; 48; 27; 92]) = [] /\   (* ESC P q # 0 ESC \ *)
+  log_of (process p0 [27; 88; 120; 27; 92]) = [] /\            (* ESC X x ESC \ *)
+  log_of (process p0 [27; 95; 120; 27; 92]) = [] /\            (* ESC _ x ESC \ *)
   log_of (process p0 [27; 80; 113; 35; 48; 156]) = [] /\                               (* DCS ... C1 ST *)
   scr_same (process p0 [27; 80; 113; 35; 48; 27; 92]) p0.
 Proof. repeat split; vm_compute; reflexivity. Qed.
